@@ -1113,6 +1113,8 @@ class Interp:
         if is_literal_seq(dom):
             return self.unroll(s, dom, fr)
         sp = splice_domain(dom)
+        if sp is not None:
+            sp = narrow_range(sp)
         if sp is not None and isinstance(s.target, (ast.Name, ast.Tuple, ast.List)):
             # for x in [v for b1 in D1 if g1 for b2 in D2 ...]:  ==  for b1 in D1: if g1: for b2 in D2: ...: x = v; body
             chain, v = sp
@@ -1267,6 +1269,51 @@ def splice_domain(dom):
     if dom[0] == 'comp':
         return dom[1], dom[2]
     return None
+
+
+def narrow_range(sp):
+    """[r for r in range(lo, hi) if r >= a]  ==  range(max(lo, a), hi)   (likewise <=, <, >, and reversed(range(..))):
+    a bound on the loop variable of a range is a narrower range, not a condition on the body"""
+    chain, v = sp
+    if len(chain) != 1:
+        return sp
+    b, g = chain[0]
+    if g == TRUE or v != b:
+        return sp
+    dom = b[3]
+    rev = False
+    if dom[0] == 'call' and dom[1] == S('reversed') and len(dom[2]) == 1:
+        rev, dom = True, dom[2][0]
+    if not (dom[0] == 'call' and dom[1] == S('range') and len(dom[2]) in (1, 2) and not dom[3]):
+        return sp
+    lo, hi = (C(0), dom[2][0]) if len(dom[2]) == 1 else dom[2]
+    conj = list(g[2]) if (g[0] == 'bool' and g[1] == 'and') else [g]
+    for c in conj:
+        neg = False
+        while c[0] == 'not':
+            neg, c = not neg, c[1]
+        if c[0] != 'cmp' or c[1] not in ('Lt', 'LtE', 'Gt', 'GtE'):
+            return sp
+        op, x, y = c[1], c[2], c[3]
+        if y == b and not contains(x, lambda t: t == b):
+            op, x, y = {'Lt': 'Gt', 'Gt': 'Lt', 'LtE': 'GtE', 'GtE': 'LtE'}[op], y, x
+        if x != b or contains(y, lambda t: t == b):
+            return sp
+        if neg:
+            op = {'Lt': 'GtE', 'GtE': 'Lt', 'Gt': 'LtE', 'LtE': 'Gt'}[op]
+        if op == 'GtE':
+            lo = CALL(S('max'), [lo, y])
+        elif op == 'Gt':
+            lo = CALL(S('max'), [lo, BIN('Add', y, C(1))])
+        elif op == 'LtE':
+            hi = CALL(S('min'), [hi, BIN('Add', y, C(1))])
+        else:
+            hi = CALL(S('min'), [hi, y])
+    nd = CALL(S('range'), [lo, hi])
+    if rev:
+        nd = CALL(S('reversed'), [nd])
+    nb = ('bvar', b[1], b[2], nd)
+    return ((nb, TRUE),), nb
 
 
 def A_base(t):
